@@ -72,20 +72,22 @@ G == [mode |-> Mode, nodes |-> NodeSeq, edges |-> EdgeSeq, branches |-> BrSeq]
 
 Preds(n) == {e[1] : e \in {x \in edges : x[2] = n}} \cup {b.from : b \in {x \in brs : n \in x.ends}}      \* = C!CtrlPreds(G, n)
 Succs(n) == {m \in Nodes \cup {END} : n \in Preds(m)}
-Level(n) == C!LevelOf(G, n)
-Before(x, y) == x \in C!DepOf(G, y)
-RunNodes == C!RunSet(G)
-EndFeed == C!DepOf(G, END)
-Parallel == \E x, y \in RunNodes : x # y /\ ~Before(x, y) /\ ~Before(y, x)
-Layered == \A n \in Nodes \cup {END} : \A p, q \in Preds(n) : Level(p) = Level(q)
-WellFormed ==
+\* (the operators below take the graph record as a parameter so that it is built once per evaluation)
+ParallelG(g) == \E x, y \in C!RunSet(g) : x # y /\ x \notin C!DepOf(g, y) /\ y \notin C!DepOf(g, x)
+LayeredG(g) == \A n \in Nodes \cup {END} : \A p, q \in Preds(n) : C!LevelOf(g, p) = C!LevelOf(g, q)
+WellFormedG(g) ==
   /\ \A n \in Nodes : Preds(n) # {}
-  /\ Preds(END) # {} /\ C!RunsOf(G, END)
+  /\ Preds(END) # {}
   /\ \A n \in Nodes : Succs(n) # {} \/ (Mode = "wf" /\ AllowDangling)
-  /\ (Mode = "wf" /\ AllowDangling => EndFeed # {})
-  /\ Parallel
-  /\ (Mode = "pregel" => Layered /\ brs = {})
   /\ (phase = "b" => brs # {})                  \* graphs without a branch are finished from the edge phase
+  /\ (Mode = "wf" => (\E e \in edges : e[1] = START) /\ (\E e \in edges : e[2] = END))   \* a workflow needs a direct start and end dependency
+  /\ (Mode = "pregel" => brs = {})
+  /\ C!RunsOf(g, END)
+  /\ (Mode = "wf" /\ AllowDangling => C!DepOf(g, END) # {})
+  /\ ParallelG(g)
+  /\ (Mode = "pregel" => LayeredG(g))
+WellFormed == WellFormedG(G)
+EndFeed == C!DepOf(G, END)
 
 Fails == {<<>>} \cup {<<[n |-> n, kind |-> k]>> : n \in EndFeed, k \in FailKinds}
 Finish == /\ phase \in {"e", "b"} /\ WellFormed
@@ -96,13 +98,15 @@ Spec == Init /\ [][Next]_vars
 
 \* ---- completion orders ----
 Batch == Mode \in {"dag", "pregel"}
-Prec(x, y) == IF Batch THEN Level(x) < Level(y) ELSE Before(x, y)
-RECURSIVE LinExt(_)
-LinExt(S) == IF S = {} THEN {<<>>}
-             ELSE UNION {{<<x>> \o s : s \in LinExt(S \ {x})} : x \in {m \in S : \A y \in S : ~Prec(y, m)}}
-Probes == IF ~Batch THEN {}
-          ELSE {<<b, c>> \in RunNodes \X RunNodes : Level(c) > Level(b) /\ ~Before(b, c) /\ b \notin {f.n : f \in {fail[i] : i \in 1..Len(fail)}}}
-
-Case == [mode |-> Mode, nodes |-> NodeSeq, edges |-> EdgeSeq, branches |-> BrSeq, fail |-> fail, orders |-> LinExt(RunNodes), probes |-> Probes]
+PrecG(g, x, y) == IF Batch THEN C!LevelOf(g, x) < C!LevelOf(g, y) ELSE x \in C!DepOf(g, y)
+RECURSIVE LinExtG(_, _)
+LinExtG(g, S) == IF S = {} THEN {<<>>}
+                 ELSE UNION {{<<x>> \o s : s \in LinExtG(g, S \ {x})} : x \in {m \in S : \A y \in S : ~PrecG(g, y, m)}}
+ProbesG(g) == IF ~Batch THEN {}
+              ELSE {<<b, c>> \in C!RunSet(g) \X C!RunSet(g) : C!LevelOf(g, c) > C!LevelOf(g, b) /\ b \notin C!DepOf(g, c)
+                                                              /\ b \notin {f.n : f \in {fail[i] : i \in 1..Len(fail)}}}
+CaseG(g) == [mode |-> Mode, nodes |-> g.nodes, edges |-> g.edges, branches |-> g.branches, fail |-> fail,
+             orders |-> LinExtG(g, C!RunSet(g)), probes |-> ProbesG(g)]
+Case == CaseG(G)
 Emit == phase = "done" => PrintT(<<"CASE", ToJson(Case)>>)
 ================================================================================
